@@ -366,7 +366,7 @@ func checkMain(args []string) int {
 			fmt.Printf("KNOWN-FINDING: property=%s %s (%s)\n", id, kf.What, r.Name)
 			continue
 		}
-		if r.Safety && renumbered > 0 {
+		if (r.Safety || r.Kind == "frame" || r.Kind == "atomic") && renumbered > 0 {
 			// the function's safety obligations were renumbered by an edit, so baseline names
 			// no longer identify them: in a function whose contract says `nopanic` every
 			// panic-freedom obligation it generates must discharge
